@@ -1,5 +1,5 @@
 (* C05 - Rejected CTAP2 requests report exactly the status code their fault calls for. *)
-From Ctap Require Import Base Schema Wire Utf8 Typed WellTyped Procs Inst Tables ProcTables Finite CborItem WireP SkipP TypedP EntriesP FramingP C11P SerP TotalP RoundTripP PrefixP FaultP ObRequestSide ObOpTables FnShapes Shapes ObShapeRequest Deps ObDeps.
+From Ctap Require Import Base Schema Wire Utf8 Typed WellTyped Procs Inst Tables ProcTables Finite CborItem WireP SkipP TypedP EntriesP FramingP C11P SerP TotalP RoundTripP PrefixP FaultP ObRequestSide ObOpTables FnShapes Shapes ObShapeRequest Deps ObDeps ObShapeStrings ObShapeFilters.
 Local Open Scope string_scope.
 Local Open Scope Z_scope.
 
@@ -235,6 +235,12 @@ Proof. exact generated_shapes_request. Qed.
 Theorem c05_modelled_dependencies_pinned : deps_hold lock_versions cargo_deps = true.
 Proof. exact generated_deps. Qed.
 
+(* further hand-modelled functions this property rests on *)
+Theorem c05_modelled_functions_unchanged_strings : shapes_hold fn_shapes shapes_strings = true.
+Proof. exact generated_shapes_strings. Qed.
+Theorem c05_modelled_functions_unchanged_filters : shapes_hold fn_shapes shapes_filters = true.
+Proof. exact generated_shapes_filters. Qed.
+
 Eval vm_compute in "ASSUMPTIONS c05_mapping". Print Assumptions c05_mapping.
 Eval vm_compute in "ASSUMPTIONS c05_invalid_command_status". Print Assumptions c05_invalid_command_status.
 Eval vm_compute in "ASSUMPTIONS c05_status_range". Print Assumptions c05_status_range.
@@ -262,3 +268,5 @@ Eval vm_compute in "ASSUMPTIONS c05_wrong_major". Print Assumptions c05_wrong_ma
 Eval vm_compute in "ASSUMPTIONS c05_wrong_type_value". Print Assumptions c05_wrong_type_value.
 Eval vm_compute in "ASSUMPTIONS c05_member_error_propagates". Print Assumptions c05_member_error_propagates.
 Eval vm_compute in "ASSUMPTIONS c05_modelled_dependencies_pinned". Print Assumptions c05_modelled_dependencies_pinned.
+Eval vm_compute in "ASSUMPTIONS c05_modelled_functions_unchanged_strings". Print Assumptions c05_modelled_functions_unchanged_strings.
+Eval vm_compute in "ASSUMPTIONS c05_modelled_functions_unchanged_filters". Print Assumptions c05_modelled_functions_unchanged_filters.
